@@ -81,8 +81,6 @@ def inventory(facts):
                         root = strip_all(root.get("b") or {})
                     if not (isinstance(root, dict) and root.get("k") == "Ref" and root.get("dk") == "local"):
                         return
-                    if l.get("k") == "Ref" and l.get("d") in ind:
-                        return
                     hit = [False]
                     walk(e["r"], lambda x: hit.__setitem__(0, True) if _is_read(x) else None)
                     if hit[0]:
@@ -123,7 +121,17 @@ def inventory(facts):
             if e.get("cond") is not None:
                 from astu import literals, negate
                 c0, neg0 = e["cond"]
-                extra = [(l0, "cond") for l0 in (negate(c0) if neg0 else literals(c0))]
+                bl = validators._bool_locals(fn)
+
+                def expand(l0, depth=0):
+                    # named conditions read as what they name, like in astu.reach
+                    x = strip(l0)
+                    if isinstance(x, dict) and x.get("k") == "Ref" and x.get("d") in bl and depth < 3:
+                        return [y for l2 in literals(bl[x["d"]]) for y in expand(l2, depth + 1)]
+                    if isinstance(x, dict) and x.get("k") == "Un" and x.get("op") == "!" and isinstance(strip(x.get("e")), dict) and strip(x["e"]).get("k") == "Ref" and strip(x["e"]).get("d") in bl and depth < 3:
+                        return [y for l2 in negate(bl[strip(x["e"])["d"]]) for y in expand(l2, depth + 1)]
+                    return [l0]
+                extra = [(y, "cond") for l0 in (negate(c0) if neg0 else literals(c0)) for y in expand(l0)]
             env_site = env
             if l.get("k") == "Ref" and l.get("d") in av:
                 others = [val for val in av[l["d"]] if val is not e.get("r")]
